@@ -396,7 +396,8 @@ def segmentOracle (A B O D : V2 Rat) (max : Option Rat) (out : Out2) (exactFrame
     else
       let sStar := cross2 ao E / cr
       let tStar := cross2 ao D / cr
-      let inRange : Bool := (decide (sStar = 0) || decide (sStar > tol)) && ltMaxClear sStar max
+      -- an origin exactly on the segment's line (s* = 0) is only a decidable tie when no float rotation is involved
+      let inRange : Bool := ((exactFrame && decide (sStar = 0)) || decide (sStar > tol)) && ltMaxClear sStar max
       if inRange ∧ tStar ≥ tolB ∧ tStar ≤ 1 - tolB then
         -- sin² of the angle between the ray and the segment
         -- sin²θ: below 1e-24 the configuration is collinear up to rounding (tie, not judged); below 1e-5 the code's
@@ -501,7 +502,8 @@ def convexOracle (bodies : List Body) (supp : Support) (O D : V3 Rat) (scale : R
     if (match max with | some m => decide (m ≤ δ) | none => false) then "skip max-toi-below-resolution" else
     if solid ∨ out0 then
       (if existsInside bodies tolR 0 max then
-         (if !out0 ∧ !deep0 then "fail none-but-segment-enters-shape origin-on-surface" else "fail none-but-segment-enters-shape")
+         (if !out0 ∧ !deep0 then "fail none-but-segment-enters-shape origin-on-surface"
+          else if deep0 then "fail none-but-origin-inside" else "fail none-but-segment-enters-shape")
        else "pass")
     else if deep0 then
       match max with
